@@ -238,8 +238,12 @@ package algo
 //@ spec func bok1(c *util.Chars, ts int) bool = bat(c, ts) >= 8 && (ts == 0 || cls(at(c, ts - 1)) <= 2)
 //@ spec func bok2(c *util.Chars, m int, ts int) bool = ts + m == clen(c) || cls(at(c, ts + m)) <= 2
 //@ spec func bok(c *util.Chars, m int, ts int) bool = bat(c, ts) >= 8 && (ts == 0 || cls(at(c, ts - 1)) <= 2) && (ts + m == clen(c) || cls(at(c, ts + m)) <= 2)
+// bokq is bok behind an opaque name (the found occurrence is carried through the loop and the final merge as an atom)
+//@ spec func bokq(c *util.Chars, m int, ts int) bool = bok(c, m, ts)
+//@ opaque bokq
 //@ func exactMatchNaive
 //@ property C02 C01
+//@ reveal bokq
 //@ requires text != nil && validChars(text) && validRunes(pattern) && len(pattern) <= 2147483648
 //@ ensures r1 == nil
 //@ ensures len(pattern) == 0 ==> r0.Start == 0 && r0.End == 0
@@ -250,10 +254,13 @@ package algo
 //@ ensures !forward && len(pattern) > 0 && r0.Start >= 0 ==> forall(k, 0, len(pattern), hitp(text, r0.Start + k, pattern, k, caseSensitive, normalize))
 //@ ensures len(pattern) > 0 && !boundaryCheck && r0.Start < 0 && asciiFuzzyIndex_r0(text, pattern, caseSensitive) >= 0 ==> forall(s, 0, clen(text) - len(pattern) + 1, !occp(text, pattern, caseSensitive, normalize, forward, s, len(pattern)))
 //@ ensures len(pattern) > 0 && boundaryCheck && r0.Start < 0 && asciiFuzzyIndex_r0(text, pattern, caseSensitive) >= 0 ==> forall(s, 0, clen(text) - len(pattern) + 1, !(occp(text, pattern, caseSensitive, normalize, forward, s, len(pattern)) && bok(text, len(pattern), tstart(s, clen(text), len(pattern), forward))))
+//@ ensures len(pattern) > 0 && boundaryCheck && r0.Start >= 0 ==> bokq(text, len(pattern), r0.Start) -- what is reported in boundary mode is a boundary occurrence (both ends, also for a one-character term)
 //@ note completeness is stated relative to the ASCII pre-filter: that asciiFuzzyIndex returns -1 only when no occurrence exists is not proved (listed as unverified)
 //@ use occp_hits(text, pattern, caseSensitive, normalize, forward, tstart(r0.Start, clen(text), len(pattern), forward), len(pattern))
 //@ use @"index -= pidx" occp_down(text, pattern, caseSensitive, normalize, forward, index - pidx, lenPattern, pidx + 1)
 //@ assert @"index -= pidx" boundaryCheck ==> !(occp(text, pattern, caseSensitive, normalize, forward, index - pidx, lenPattern) && bok(text, lenPattern, tstart(index - pidx, lenRunes, lenPattern, forward)))
+//@ assert @"if bonus >= bonusBoundary {" boundaryCheck ==> bestPos >= 0 && bokq(text, lenPattern, tstart(bestPos - lenPattern + 1, lenRunes, lenPattern, forward))
+//@ assert @"var sidx, eidx int" boundaryCheck ==> bokq(text, lenPattern, tstart(bestPos - lenPattern + 1, lenRunes, lenPattern, forward))
 //@ use @"calculateScore(" occp_hits(text, pattern, caseSensitive, normalize, forward, bestPos - lenPattern + 1, lenPattern)
 //@ use @"calculateScore(" occ_g(text, pattern, caseSensitive, normalize, sidx, lenPattern)
 //@ loop 1
@@ -265,6 +272,7 @@ package algo
 //@   invariant !boundaryCheck && bestPos < 0 ==> forall(s, 0, index - pidx, !occp(text, pattern, caseSensitive, normalize, forward, s, lenPattern))
 //@   invariant boundaryCheck && bestPos < 0 ==> forall(s, 0, index - pidx, !(occp(text, pattern, caseSensitive, normalize, forward, s, lenPattern) && bok(text, lenPattern, tstart(s, lenRunes, lenPattern, forward))))
 //@   invariant boundaryCheck && forward && pidx > 0 ==> bonus == bat(text, index - pidx) && bok1(text, index - pidx)
+//@   invariant boundaryCheck && bestPos >= 0 ==> bokq(text, lenPattern, tstart(bestPos - lenPattern + 1, lenRunes, lenPattern, forward))
 //@   invariant boundaryCheck && !forward && pidx > 0 ==> bok2(text, lenPattern, lenRunes - (index - pidx) - lenPattern)
 //@   decreases (lenRunes - (index - pidx)) * (lenPattern + 1) + (lenPattern - pidx)
 
